@@ -1,7 +1,7 @@
 package log
 
 //verif:witness H_C04_conserve end
-//verif:bound C04 quick async logger with buffer capacity 1..2 (capacity override on make(chan, BufferSize); the code never reads the capacity), 1..2 producers (first 1..2 items, second 1 item; thorough 1..2 each) (event with arbitrary int32 level against an arbitrary int32 logger range, or raw write), 3 policies, fast or slow (yielding) appender; pre-emption at yields and blocking operations only
+//verif:bound C04 quick async logger with buffer capacity 1..2 (capacity override on make(chan, BufferSize); the code never reads the capacity), 1..2 producers (first 1..2 items, second 1 item; thorough 1..2 each) (event with arbitrary int32 level against an arbitrary int32 logger range, raw write, or empty raw write), with or without a logger-level layout, the appender reference carrying the logger's own range, 3 policies, fast or slow (yielding) appender; pre-emption at yields and blocking operations only
 //verif:bound C04 thorough capacity 1..2, 2 producers x up to 2 items, pre-emption at every visible operation (channel, atomic, pool, yield) with at most 1 pre-emptive switch per schedule (switches forced by blocking are free)
 //verif:assume C04 producers are joined before Stop (the statement's premise 'once Stop has returned' read with C05's 'no log call concurrently in progress')
 //verif:assume C04 threads switch only at visible operations (channel ops, sync/atomic, sync.Pool, yields, thread exit); between them a thread runs atomically (sound for data-race-free code)
@@ -18,8 +18,13 @@ type vItem struct {
 func vAsyncRun(capacity, policy int, slow bool, plan [][]vItem) (*AsyncLogger, *vRecAppender) {
 	vOpt("chancap", capacity)
 	app := &vRecAppender{slow: slow}
+	withLayout := vChoose("loggerLayout", 2) == 1
 	l := &AsyncLogger{LoggerBase: LoggerBase{Name: "a", Level: LevelRange{MinLevel: Level{code: vLmin, name: "LO"}, MaxLevel: Level{code: vLmax, name: "HI"}}}, BufferSize: 100, BufferFullPolicy: BufferFullPolicy(policy)}
-	l.AppenderRefs.AppenderRefs = []*AppenderRef{{Appender: app, Level: LevelRange{MinLevel: Level{code: -2147483648, name: "ALL"}, MaxLevel: Level{code: 2147483647, name: "TOP"}}}}
+	// the appender reference has the logger's own range: whatever the logger accepts must get through
+	l.AppenderRefs.AppenderRefs = []*AppenderRef{{Appender: app, Level: LevelRange{MinLevel: Level{code: vLmin, name: "LO"}, MaxLevel: Level{code: vLmax, name: "HI"}}}}
+	if withLayout {
+		l.Layout = &vIDLayout{} // formatted route: the line carries the event's identity
+	}
 	if err := l.Start(); err != nil {
 		panic(err)
 	}
@@ -39,6 +44,12 @@ func vAsyncRun(capacity, policy int, slow bool, plan [][]vItem) (*AsyncLogger, *
 	return l, app
 }
 
+// vIDLayout renders an event as the single byte of its identity (Line), so that the formatted
+// route can be traced like a raw write.
+type vIDLayout struct{}
+
+func (*vIDLayout) ToBytes(e *Event) []byte { return []byte{byte(e.Line)} }
+
 // logger range used by vAsyncRun: arbitrary int32 bounds chosen by vPlan
 var vLmin, vLmax int32
 
@@ -48,6 +59,8 @@ func vSubmit(l Logger, it vItem) {
 		e := GetEvent()
 		e.Level, e.Line, e.Tag = Level{code: it.level, name: "EV"}, it.id, "_t_x"
 		l.Append(e)
+	case 3:
+		l.Write(nil) // an empty raw write is still a write
 	default:
 		l.Write([]byte{byte(it.id)})
 	}
@@ -64,7 +77,7 @@ func vPlan(maxProducers, maxItems int) (plan [][]vItem, submitted int) {
 		}
 		var items []vItem
 		for i := 0; i < n; i++ {
-			it := vItem{kind: 2 * vChoose("kind", 2), id: id, enabled: true}
+			it := vItem{kind: [3]int{0, 2, 3}[vChoose("kind", 3)], id: id, enabled: true}
 			if it.kind == 0 {
 				it.level = vInt32("level")
 				it.enabled = vLmin <= it.level && it.level < vLmax
@@ -117,7 +130,7 @@ func H_C04_conserve() {
 	ids := vDeliveredIDs(app)
 	for i := range ids {
 		for j := i + 1; j < len(ids); j++ {
-			vAssert(ids[i] != ids[j], "nothing-delivered-twice")
+			vAssert(ids[i] == -1 || ids[i] != ids[j], "nothing-delivered-twice")
 		}
 		for _, items := range plan {
 			for _, it := range items {
@@ -129,6 +142,19 @@ func H_C04_conserve() {
 	}
 	if BufferFullPolicy(policy) == BufferFullPolicyBlock {
 		vAssert(discarded == 0 && delivered == submitted, "block-policy-delivers-everything")
+	}
+	// what is delivered is what was submitted, intact: identity and level of every delivered event
+	for _, e := range app.events {
+		known := false
+		for _, items := range plan {
+			for _, it := range items {
+				if it.kind == 0 && it.id == e.Line {
+					known = true
+					vAssert(e.Level.code == it.level && e.Tag == "_t_x", "delivered-event-is-intact")
+				}
+			}
+		}
+		vAssert(known, "delivered-event-is-a-submitted-event")
 	}
 	vReach("end")
 }
